@@ -1,5 +1,7 @@
 import SignalModel.Spec
 import SignalModel.SpecMem
+import SignalModel.Cost
+import SignalModel.PoolM
 /-!
 # Transcript replay: the correspondence check's model side
 
@@ -45,6 +47,8 @@ structure DState where
   implOut : Array (List Nat) := #[]
   ikind : Array (Option Kind) := #[]
   ipools : Array (Kind × Nat × Nat × Nat) := #[]
+  pm : Option (PoolM.Par × PoolM.PSt) := none
+  obsOff : Bool := false
   pending : Option SpecMem.OpObs := none
   pendingLine : Nat := 0
   kctx : Option KCtx := none
@@ -544,7 +548,7 @@ def stepLine (s : DState) (line : String) : DState :=
   if cmd == "transcript" then { s with prop := t[1]?.getD "" }
   else if cmd == "case" then
     let s := finalizePending s
-    { s with heap := [], bufs := #[], pools := #[], dead := false, pre := #[], post := #[], seen := #[], implOut := #[], ikind := #[], ipools := #[],
+    { s with heap := [], bufs := #[], pools := #[], dead := false, pre := #[], post := #[], seen := #[], implOut := #[], ikind := #[], ipools := #[], pm := none, obsOff := false,
              caseNo := nat! (t[1]?.getD "0"), caseLabel := " ".intercalate (t.toList.drop 2),
              kctx := none, kprev := none, rtctx := none }
   -- ---------- stateless lines ----------
@@ -658,12 +662,54 @@ def stepLine (s : DState) (line : String) : DState :=
     let s := if (channelLength n ch : Int) == r then s else s.divergeK s!"ChannelLength n={n} ch={ch}" (toString (channelLength n ch)) (toString r)
     let s := if channelLengthF n ch == some r then s else s.divergeK s!"ChannelLength(float) n={n} ch={ch}" (fmtOpt (channelLengthF n ch)) (toString r)
     if ch == 0 && r != 0 then s.fail "C20" "channelLengthZero" s!"n={n} ch=0 r={r}" else s
+  else if cmd == "allocs" then
+    let op := t[1]?.getD ""; let n := nat! (t[t.size - 1]?.getD "0")
+    let s := { s with nKern := s.nKern + 1, nPred := s.nPred + 1 }
+    match modelAllocs op with
+    | none => s.divergeK s!"allocs-unknown-op {op}" "-" line
+    | some m => if n ≤ m then s else s.fail "C18" "allocs" s!"op={op} shape={t[2]?.getD ""} measured={n} model={m}"
+  else if cmd == "obs" then
+    let s := finalizePending s
+    { s with obsOff := t[1]? == some "off" }
+  else if cmd == "r19" then
+    let s := { s with nKern := s.nKern + 1, nPred := s.nPred + 1 }
+    if line.endsWith "mismatches=0" then s else s.fail "C19" "readers-equal-sequential" line
+  else if cmd == "rpool" then
+    match Kind.ofString? (t[1]?.getD "") with
+    | some k => { s with pm := some (⟨k, nat! (t[2]?.getD "0"), nat! (t[3]?.getD "0"), nat! (t[4]?.getD "0")⟩, PoolM.init) }
+    | none => s.divergeK "rpool-parse" "-" line
+  else if cmd == "rget" then
+    match s.pm with
+    | none => s
+    | some (p, ps) =>
+      let g := nat! (t[1]?.getD "0"); let id := nat! (t[2]?.getD "0"); let mode := t[3]?.getD ""
+      let s := { s with nOps := s.nOps + 1, nPred := s.nPred + 1 }
+      let s := if t[4]? == some "1" && t[5]? == some "1" then s
+        else s.fail "C11" "get-fresh" s!"goroutine={g} buffer={id} mode={mode} shapeOK={t[4]?.getD ""} zeroOK={t[5]?.getD ""}"
+      let st : PoolM.Step := if mode == "new" then .getNew g else .getReuse g id
+      if mode == "new" && id != ps.bufs.length then s.divergeK "rget-new-id" (toString ps.bufs.length) (toString id)
+      else if PoolM.enabled p ps st then { s with pm := some (p, PoolM.step p ps st) }
+      else
+        let s := match PoolM.holder ps id with
+          | some h => s.fail "C11" "exclusive-ownership" s!"goroutine={g} obtained buffer={id} while goroutine={h} holds it"
+          | none => s
+        s.divergeK s!"rget g={g} id={id} {mode}" "a step enabled in the pool machine" s!"free={ps.free} out={ps.out}"
+  else if cmd == "rput" then
+    match s.pm with
+    | none => s
+    | some (p, ps) =>
+      let g := nat! (t[1]?.getD "0"); let id := nat! (t[2]?.getD "0")
+      let s := { s with nOps := s.nOps + 1, nPred := s.nPred + 1 }
+      let s := if t[3]? == some "1" then s
+        else s.fail "C11" "ownership-stamps" s!"goroutine={g} buffer={id}: stamps written over the whole capacity were overwritten while held"
+      if PoolM.enabled p ps (.put g id) then { s with pm := some (p, PoolM.step p ps (.put g id)) }
+      else s.divergeK s!"rput g={g} id={id}" "holder puts" s!"out={ps.out}"
   -- ---------- stateful lines ----------
   else if cmd == "v" then stepView s t
   else
     let s := beginOp s
     let (lhs, rhs) := splitArrow t
-    let s := observe s cmd t lhs rhs
+    let s := if s.obsOff then s else observe s cmd t lhs rhs
     if s.dead then { s with nDeadSkipped := s.nDeadSkipped + 1 }
     else modelStep s cmd t lhs rhs line
 
